@@ -127,6 +127,10 @@ class GenericRules(unittest.TestCase):
         finally:
             paths._INVENTORY = saved
 
+    def test_in_place_update_that_would_have_to_broadcast(self):
+        self.assertEqual(self.run_named("in_place_cannot_broadcast", "separable_in_place"), ["VIOLATED"])
+        self.assertEqual(self.run_named("in_place_cannot_broadcast", "separable_out_of_place"), ["DISCHARGED"])
+
     def test_gather_with_the_permutation_itself_is_reported(self):
         self.assertEqual(self.run_rule("nested_windows_wrong"), ["VIOLATED"])
 
